@@ -45,7 +45,17 @@ def make_files(d: Path) -> dict:
     (d / "K2.krome").write_text("@format:idx,R,R,P,P,Tmin,Tmax,rate\n1,C,H,CH,,10,280,6.59d-11\n2,CH,H,C,H2,NONE,.LE.8.d2,4.67e-10*(T32)**(-5.0e-01)\n")
     (d / "K2b.krome").write_text("@format:idx,R,R,P,P,rate\n3,C,H2,CH,H,1.0d-12*exp(-1.0d3*invT)\n")
     (d / "K2bad.krome").write_text("@common:user_leak\n@format:idx,R,P,rate\n4,CH,C,1.0d-15*user_leak\n5,Hy,H,1.0d-10\n")
+    import encoders
+    lrec = lambda r, p_, code, a=1.0, idx=1: {"r": r, "p": p_, "a": a, "b": 0.0, "c": 0.0, "tmin": 5.0, "tmax": 41000.0, "idx": idx, "code": code}
+    gl = [lrec(["H", "H"], ["H2"], 1, a=6.59e-11), lrec(["GRAIN0", "e-"], ["GRAIN-"], 20, idx=2), lrec(["C+", "GRAIN-"], ["C", "GRAIN0"], 6, idx=3),
+          lrec(["CO"], ["GCO"], 7, idx=4), lrec(["GCO"], ["CO"], 8, idx=5)]
+    (d / "G.leeds").write_text("\n".join(encoders.leeds(x) for x in gl) + "\n")
+    (d / "G2.leeds").write_text(encoders.leeds(lrec(["H+", "GRAIN-"], ["H", "GRAIN0"], 6, idx=6)) + "\n")
+    (d / "Gbad.leeds").write_text(encoders.leeds(lrec(["O", "H"], ["OH"], 1, idx=7)) + "\n" + encoders.leeds(lrec(["Qq"], ["H"], 1, idx=8)) + "\n")
     data = REPO / "tests" / "data"
+    # a network with dust: two grain species of one population (GRAIN0, GRAIN-) under the hh93 model
+    G = {"kw": {"grain_model": "hh93"}, "files": [[str(d / "G.leeds"), "leeds"], [str(d / "G2.leeds"), "leeds"]], "badfile": [str(d / "Gbad.leeds"), "leeds"],
+         "allowed": ["H", "H2", "GRAIN0", "GRAIN-", "e-", "C+", "C", "CO", "GCO", "H+"], "krome": False}
     A = {"kw": {"elements": ["E", "H", "HE", "C", "O"], "pseudo_elements": ["CR", "CRP", "PHOTON"]},
          "files": [[str(d / "A.naunet"), "naunet"], [str(d / "A2.naunet"), "naunet"]], "badfile": [str(d / "Abad.naunet"), "naunet"],
          "allowed": ["H", "H2", "HE", "HE+", "E-", "C", "O", "CO", "C+"], "krome": False}
@@ -58,7 +68,7 @@ def make_files(d: Path) -> dict:
           "allowed": ["C", "H", "CH", "H2"], "krome": True}
     C = {"kw": {}, "files": [[str(data / "minimal.kida"), "kida"], [str(data / "minimal.umist"), "umist"]],
          "badfile": [str(d / "Bbad.naunet"), "naunet"], "allowed": ["C", "CH", "H", "C2"], "krome": False}
-    return {"custom": {"1": A, "2": B}, "mixed": {"1": A, "2": K2}, "mixedC": {"1": B, "2": C}, "none": {"1": K1, "2": K2}}
+    return {"custom": {"1": A, "2": B}, "mixed": {"1": A, "2": K2}, "mixedC": {"1": B, "2": C}, "none": {"1": K1, "2": K2}, "grain": {"1": G, "2": C}}
 
 
 def concrete(last: list, nets: dict):
@@ -120,7 +130,7 @@ def main(ctx: Ctx) -> int:
 
     files = make_files(ctx.sub("files"))
     families = [("custom", "MC_Globals_custom.cfg"), ("mixed", "MC_Globals_mixed_full.cfg"), ("mixedC", "MC_Globals_mixed_full.cfg"),
-                ("none", "MC_Globals_none.cfg")]
+                ("none", "MC_Globals_none.cfg"), ("grain", "MC_Globals_none.cfg")]
     scenarios = []
     nsim = 10 if ctx.quick else 120
     for fam, cfg in families:
@@ -147,6 +157,8 @@ def main(ctx: Ctx) -> int:
         scenarios.append((fam, [["New", 1], ["Parse", 1, files[fam]["1"]["krome"], True], ["New", 2], ["Parse", 2, files[fam]["2"]["krome"], False], ["Render", 2]]))
         scenarios.append((fam, [["New", 1], ["Parse", 1, files[fam]["1"]["krome"], False], ["New", 2], ["Parse", 2, files[fam]["2"]["krome"], False],
                                 ["Render", 1], ["Render", 2], ["Render", 1]]))
+        scenarios.append((fam, [["New", 2], ["Parse", 2, files[fam]["2"]["krome"], False], ["Render", 2], ["New", 1], ["Parse", 1, files[fam]["1"]["krome"], False],
+                                ["Render", 1], ["Render", 2]]))
     cov["spec_behaviours_replayed"] = len(scenarios)
 
     jobs = []
@@ -193,7 +205,7 @@ def main(ctx: Ctx) -> int:
     cov["fresh_process_references"] = len(refcache)
     # which Custom assignment each family's trace spec needs
     rejected_total = 0
-    for famset, custom in ((("custom",), "AllCustom"), (("mixed", "mixedC"), "Mixed"), (("none",), "NoneCustom")):
+    for famset, custom in ((("custom",), "AllCustom"), (("mixed", "mixedC"), "Mixed"), (("none", "grain"), "NoneCustom")):
         part = [t for t in traces if t["fam"] in famset]
         if not part:
             continue
@@ -212,6 +224,8 @@ def main(ctx: Ctx) -> int:
             fmt = tr["fam"]
             ctx.violation(f"C17|{clause}|family={fmt},op={e['op']}", f"{fmt}: ops {tr['ops']} rejected at event {rj['at']} {e}: {rj['clauses']}",
                           {"trace": tr, "clauses": rj["clauses"]})
+    if cov.get("traces_validated_against_impl", 0) != len(traces):
+        raise MachineryError("a scenario family has no trace configuration")
     renders = [e for t in traces for e in t["ev"] if e["op"] == "Render"]
     cov["renders_compared"] = len(renders)
     cov["renders_identical_to_fresh"] = sum(1 for e in renders if e.get("same"))
